@@ -706,6 +706,14 @@ def run(ctx):
     from pennylane import numpy as pnp
 
     warnings.filterwarnings("ignore")
+    # keep a complete list of violation mechanisms in evidence (the bus stores only the first witnesses)
+    _orig_violation = ctx.violation
+
+    def _violation(monitor, message, case=None, mech=None, observed=None, expected=None):
+        ctx.note_add("violation_mechs", f"{monitor}|{mech}", cap=150)
+        ctx.count(f"violations.{mech}")
+        return _orig_violation(monitor, message, case=case, mech=mech, observed=observed, expected=expected)
+    ctx.violation = _violation
     for nm in ("QNSPSAOptimizer", "ShotAdaptiveOptimizer", "RiemannianGradientOptimizer", "AdaptiveOptimizer"):
         ctx.uncovered(nm, "needs shot-based / circuit-growing QNodes; not driven by this check")
     N = ctx.n(700, 8000)
